@@ -393,7 +393,7 @@ class _Modifying:
                                  and (f := parent.a.values[idx - 1].f).col == col
                                  and f.ln == ln)
 
-                    if lines[ln].startswith('{', col):
+                    if col and lines[ln].startswith('{{', col - 1):
                         fst_._put_src([' '], ln, col, ln, col, False)
 
                         if fix_const:
